@@ -12,7 +12,7 @@
    multiplication): rn with any positive weighting, uniform_discr, product
    spaces are instances (Instances.v, Lists.v). *)
 From Coq Require Import Reals List Bool.
-From Verif Require Import Base.Num Base.Vec C09.Model C09.IPS C09.Proofs C09.Instances C09.Lists C09.Pointwise C09.Matrix.
+From Verif Require Import Base.Num Base.Vec C09.Model C09.IPS C09.Proofs C09.Instances C09.Lists C09.Pointwise C09.Matrix C09.Product.
 Local Open Scope R_scope.
 
 (* T1 (gradient rules, all trees).  For every expression tree, of any depth and
@@ -164,6 +164,24 @@ Theorem list_space_is_the_executed_space : forall (n : nat) (w : Vn n),
   (forall x, snorm (lspace n w) x = snorm (wspace sqrt (vl w)) (vl x)) /\
   vl (szero (lspace n w)) = szero (wspace sqrt (vl w)).
 Proof. exact lspace_is_wspace. Qed.
+
+(* Product spaces proper: ProductSpace(S1, S2) of two spaces satisfying the laws
+   satisfies them; SeparableSum(f1, f2) -- modelled as f1 o P1 + f2 o P2 with the
+   component projections -- has value f1(x1) + f2(x2), gradient
+   (grad f1(x1) + 0, 0 + grad f2(x2)), and that is its Frechet gradient in the
+   product inner product, for all trees f1, f2. *)
+Theorem product_space_satisfies_laws : forall (S1 S2 : RSpace),
+  SpaceLaws S1 -> SpaceLaws S2 -> SpaceLaws (sprod sqrt S1 S2).
+Proof. exact sprod_laws. Qed.
+Theorem separable_sum_sound : forall (S1 S2 : RSpace), SpaceLaws S1 -> SpaceLaws S2 ->
+  forall (f1 : Rexpr S1) (f2 : Rexpr S2) (x : car (sprod sqrt S1 S2)),
+  spaces_ok f1 -> spaces_ok f2 -> smooth_at f1 (fst x) -> smooth_at f2 (snd x) ->
+  value (f_sepsum sqrt f1 f2) x = value f1 (fst x) + value f2 (snd x)
+  /\ gradient (f_sepsum sqrt f1 f2) x
+     = (sadd S1 (gradient f1 (fst x)) (szero S1), sadd S2 (szero S2) (gradient f2 (snd x)))
+  /\ is_grad (sprod sqrt S1 S2) (value (f_sepsum sqrt f1 f2)) x (gradient (f_sepsum sqrt f1 f2) x).
+Proof. exact sepsum_sound. Qed.
+Print Assumptions separable_sum_sound.
 
 (* T1/T2 (coordinate-wise leaves on weighted lists; value and gradient are the
    functions of Model.leaf_l1 / leaf_huber applied to the underlying list).
